@@ -601,6 +601,42 @@ def op_toMido(r):
     return ["toMido"] + enc_msgs(r), guarded(f)
 
 
+MIDO_TYPES = ["note_on", "note_off", "time_signature", "key_signature", "control_change", "program_change", "other"]
+
+
+def op_parseMido(ty, time, channel, note, velocity, numerator, denominator, key, control, value, program):
+    """MidiMessage.parse_mido_message on one mido message built from the given attributes"""
+    import mido
+    from scoda.midi.midi_message import MidiMessage
+
+    def f():
+        kind = MIDO_TYPES[ty]
+        if kind == "note_on":
+            mm = mido.Message("note_on", channel=channel or 0, note=note, velocity=velocity, time=time)
+        elif kind == "note_off":
+            mm = mido.Message("note_off", channel=channel or 0, note=note, velocity=velocity, time=time)
+        elif kind == "time_signature":
+            mm = mido.MetaMessage("time_signature", numerator=numerator, denominator=denominator, time=time)
+        elif kind == "key_signature":
+            mm = mido.MetaMessage("key_signature", key=key, time=time)
+        elif kind == "control_change":
+            mm = mido.Message("control_change", channel=channel or 0, control=control, value=value, time=time)
+        elif kind == "program_change":
+            mm = mido.Message("program_change", channel=channel or 0, program=program, time=time)
+        else:
+            mm = mido.MetaMessage("set_tempo", tempo=500000, time=time) if channel is None else \
+                mido.Message("pitchwheel", channel=channel, pitch=10, time=time)
+        m = MidiMessage.parse_mido_message(mm)
+        from protocol import MT_RANK
+        rank = 1 if m.message_type is None else MT_RANK[m.message_type]
+        from protocol import p_plain
+        return p_plain((rank, m.channel, m.time, m.note, m.velocity, m.control, m.program, m.numerator, m.denominator,
+                        None if m.key is None else KEY_IDX[m.key]))
+    has_ch = MIDO_TYPES[ty] in ("note_on", "note_off", "control_change", "program_change") or (MIDO_TYPES[ty] == "other" and channel is not None)
+    return ["parseMido", w(ty), w(time), (w(channel or 0) if has_ch else "N"), w(note), w(velocity), w(numerator), w(denominator),
+            key, w(control), w(value), w(program)], guarded(f)
+
+
 def mido_file_from_events(file_ppq, tracks):
     """tracks: list of lists of plain MIDI events (ty, ch, delta, note, vel, ctl, prog, num, den, key(str name!))"""
     import mido
